@@ -141,6 +141,23 @@ CHECKS = {'C01': {'level': 'exploration',
                     'checks': {'quick': 400, 'thorough': 4000},
                     'shards': {'quick': 1, 'thorough': 16},
                     'timeout': {'quick': 900, 'thorough': 3400}}]},
+ 'C14': {'level': 'fault_enumeration',
+         'rule': 'per generated collection (empty, <=120 rows, one block + 6 rows, 33000 rows thinned by a patterned delete; keyed or not; with or '
+                 'without a LOG TAIL produced by transactions that the verif hooks run synchronously at snapshot:recorder-open / pre-chunk / '
+                 'pre-close) a healthy probe measures W write calls and B bytes; then fault plans are ENUMERATED: fail-forever and fail-once at '
+                 'EVERY write-call index 0..W, and fail after n accepted bytes for every n in 0..B when B<=600 (thorough: <=6000), otherwise every '
+                 's2 frame boundary +-2, 0, B-1, B and 40 drawn n. Plans run in a drawn order on ONE collection (quick: <=120 plans per collection), '
+                 'interleaved with generated transactions and, every 5th plan, a healthy snapshot that is restored and compared with the reference '
+                 'model. Oracle: writer recorded a failure <=> Snapshot returned non-nil; after every call the set of /proc/self/fd entries pointing '
+                 'at column_*.log and the column_*.log files in the private TMPDIR are unchanged; transactions keep matching the model; the healthy '
+                 'snapshot restores to the model state. non-trivial = a plan whose writer failed after >=1 successful write/byte, directly followed '
+                 'by a successful restore comparison; distinct = (collection, plan)',
+         'assumptions': ['fault positions are enumerated per collection as described; which collections are tried is random (rapid)',
+                         'descriptor/file leaks are counted by name pattern column_*.log so unrelated runtime descriptors cannot alarm'],
+         'tests': [{'run': '^TestC14$',
+                    'checks': {'quick': 30, 'thorough': 400},
+                    'shards': {'quick': 1, 'thorough': 16},
+                    'timeout': {'quick': 900, 'thorough': 3400}}]},
  'C15': {'level': 'exploration',
          'rule': 'sequential part: model-based histories (single/multi-block, read-only, rolled back, failing inserts, key operations, prefills, '
                  'bulk deletes) on a collection whose logger records every commit AND forwards it through a real commit.Channel. Oracle per '
